@@ -274,3 +274,56 @@ Lemma go_copy_same_length {A : Type} (dst src : list A) : length dst = length sr
 Proof.
   intros E. unfold go_copy. rewrite E, firstn_all, <- E, skipn_all. apply app_nil_r.
 Qed.
+
+(* ---- maps whose nil-ness is represented, and iteration over a map ----
+   [go_nmap K V] = option (go_map K V): None is the nil map (every map but an unnamed-map field of
+   the receiver struct, which is taken to be allocated).  Reading a nil map is reading the empty
+   map; storing into it panics.  A map VALUE is handed around by content: two variables that hold
+   the same map object are outside the representation (as two slices sharing an array are), except
+   that a map parameter a function changes is returned with its new content.
+
+   Iteration.  Go leaves the order of `for k := range m` unspecified: the generated function takes
+   the order as an ORACLE argument [ord] (a list of keys).  [go_nmap_order_check] accepts it iff it
+   is a duplicate-free enumeration of exactly the keys present when the loop starts; otherwise the
+   result is the distinguished [Panic PBadOrder] (not a Go panic).  During the loop a key whose entry
+   has been deleted before the iteration reaches it is skipped ([go_nmap_has] on the current map),
+   as the Go specification says; creating an entry in the map being ranged over (Go: it may or may
+   not be visited) is refused by the translator for direct stores and checked after every call that
+   may change the map ([go_nmap_nogrow_check], distinguished [Panic PMapGrew]). *)
+Definition go_nmap (K V : Type) : Type := option (go_map K V).
+
+Definition PNilMap : panic_kind := PMsg "assignment to entry in nil map".       (* Go's run-time panic *)
+Definition PBadOrder : panic_kind := PMsg "<fnrt> the iteration order handed in is not an enumeration of the keys of the map".
+Definition PMapGrew : panic_kind := PMsg "<fnrt> an entry was created in a map while it is ranged over".
+
+Definition go_nmap_make {K V : Type} : go_nmap K V := Some [].
+Definition go_nmap_isnil {K V : Type} (m : go_nmap K V) : bool := match m with None => true | Some _ => false end.
+Definition go_nmap_entries {K V : Type} (m : go_nmap K V) : go_map K V := match m with None => [] | Some l => l end.
+Definition go_nmap_get2 {K V : Type} (eqb : K -> K -> bool) (zero : V) (m : go_nmap K V) (k : K) : V * bool :=
+  go_map_get2 eqb zero (go_nmap_entries m) k.
+Definition go_nmap_get1 {K V : Type} (eqb : K -> K -> bool) (zero : V) (m : go_nmap K V) (k : K) : V :=
+  go_map_get1 eqb zero (go_nmap_entries m) k.
+Definition go_nmap_has {K V : Type} (eqb : K -> K -> bool) (m : go_nmap K V) (k : K) : bool :=
+  match go_map_get eqb (go_nmap_entries m) k with Some _ => true | None => false end.
+Definition go_nmap_set {K V : Type} (eqb : K -> K -> bool) (m : go_nmap K V) (k : K) (x : V) : res (go_nmap K V) :=
+  match m with None => Panic PNilMap | Some l => Ok (Some (go_map_set eqb l k x)) end.
+Definition go_nmap_del {K V : Type} (eqb : K -> K -> bool) (m : go_nmap K V) (k : K) : go_nmap K V :=
+  match m with None => None | Some l => Some (go_map_del eqb l k) end.
+Definition go_nmap_len {K V : Type} (eqb : K -> K -> bool) (m : go_nmap K V) : Z := go_map_len eqb (go_nmap_entries m).
+(* clear(m) *)
+Definition go_nmap_clear {K V : Type} (m : go_nmap K V) : go_nmap K V := match m with None => None | Some _ => Some [] end.
+(* maps.Clone(m): a new map with the same entries, nil for nil -- the same value *)
+Definition go_nmap_clone {K V : Type} (m : go_nmap K V) : go_nmap K V := m.
+
+Fixpoint go_keys_nodup {K : Type} (eqb : K -> K -> bool) (l : list K) : bool :=
+  match l with
+  | [] => true
+  | x :: r => negb (existsb (eqb x) r) && go_keys_nodup eqb r
+  end.
+Definition go_nmap_order_ok {K V : Type} (eqb : K -> K -> bool) (m : go_nmap K V) (ord : list K) : bool :=
+  (zlen ord =? go_nmap_len eqb m) && go_keys_nodup eqb ord && forallb (go_nmap_has eqb m) ord.
+Definition go_nmap_order_check {K V : Type} (eqb : K -> K -> bool) (m : go_nmap K V) (ord : list K) : res unit :=
+  if go_nmap_order_ok eqb m ord then Ok tt else Panic PBadOrder.
+(* every key of [after] was a key of [before] *)
+Definition go_nmap_nogrow_check {K V : Type} (eqb : K -> K -> bool) (before after : go_nmap K V) : res unit :=
+  if forallb (fun e => go_nmap_has eqb before (fst e)) (go_nmap_entries after) then Ok tt else Panic PMapGrew.
